@@ -49,7 +49,7 @@ prop("C19", "other",
      "release >= slot) 0 <= delay <= interval, slot' <= release < slot' + interval and slot' >= slot + interval; these "
      "imply the rate bound by induction over histories. Floor division by the interval is modelled by its defining "
      "inequalities; an expression outside the linear fragment makes that rule inconclusive, never a violation. "
-     "Assumes the sleep releases exactly at ts + delay. Added in rounds 6-7: the stored interval equals int(NS / rps) (linear arithmetic); no async def sleeps; a wait() inside a loop with a falling-through handler is a second slot for one request; a session without a limiter is built only when limit_rps is None or 0 (compound tests folded over sample rates).",
+     "Assumes the sleep releases exactly at ts + delay. Added in rounds 6-7: the stored interval equals int(NS / rps) (linear arithmetic); no async def sleeps; a wait() inside a loop with a falling-through handler is a second slot for one request; a session without a limiter is built only when limit_rps is None or 0 (compound tests folded over sample rates). Round 8: no function waits for the limiter and then sends through _send(), which waits itself.",
      [("C19.guard", py.policer_guard), ("C19.core", py.policer_core), ("C19.slots", pol.invariant), ("C19.noblock", py.async_never_blocks), ("C19.interval", pol.interval), ("C19.once", py.wait_once)])
 
 from .rules import c04  # noqa: E402
@@ -126,7 +126,7 @@ prop("C10", "other",
      "privacy is configured (C10.priv); a failed decrypt never delivers and decrypt receives this message's data and USM "
      "(C10.dec). The first three mechanisms are absent from the code: they are recorded as known findings (a repair needs "
      "the raw datagram in unwrap_pdu and changes the SnmpSocket trait). MAC byte equality itself is not decided."
-     " Added in round 5: NoPriv::decrypt has no Ok exit; engine id / boots / time are adopted only from a message that passed the header check. Added in rounds 6-7: the four USM OCTET STRING fields are the decoder's result on every alternative (none made up for a sequence that ended early); msgFlags has length 1; a Report in a walk step raises SnmpAuthError (never StopAsyncIteration).",
+     " Added in round 5: NoPriv::decrypt has no Ok exit; engine id / boots / time are adopted only from a message that passed the header check. Added in rounds 6-7: the four USM OCTET STRING fields are the decoder's result on every alternative (none made up for a sequence that ended early); msgFlags has length 1; a Report in a walk step raises SnmpAuthError (never StopAsyncIteration). Round 8: a deferred user that is pending is installed on every path of refresh() that probes.",
      [("C10", v3.c10), ("C10.accept", c04.accept), ("C10.check", c04.pdu_check), ("C10.version", c04.version_check), ("C10.py", py.refresh_flow), ("C10.keys", only(v3.keys, "always localised", "every Ok installs", "store is final", "separate digest")), ("C10.adopt", v3.adopt), ("C10.nopriv", crypto.nopriv_refuses), ("C10.dispatch", crypto.key_dispatch), ("C10.usmraw", crypto.usm_fields_raw), ("C10.flags", crypto.msg_flags_decode), ("C10.report", only(c06.stop_tables, "|Report")), ("C10.exc", only(c07.exc_table, "AuthenticationFailed"))])
 
 prop("C18", "other",
@@ -201,7 +201,7 @@ prop("C02", "other",
      "casts on the decode path are widening, stored field types and the Python conversion type match the SMI type; the six "
      "big-endian folds have the canonical step (acc << 8) | octet over take(h.length) (unknown shapes: inconclusive); "
      "IpAddress octet order; no overflow site in the decoders (shared with C01)."
-     " Added in rounds 4-5: the zero-copy decoders (OID, RELATIVE-OID, OCTET STRING, Opaque, ObjectDescriptor, SEQUENCE, [n]) have no error exit; in each numeric decoder some read reaches h.length (cover observation of num); an overflow guard before `T << k` refuses only values that overflow; a RELATIVE-OID name is resolved against the preceding varbind. Added in rounds 6-7: bit fields of composed values do not overlap (bit occupancy on the MIR); the REAL decoder's first-octet table over all 256 octets; BOOLEAN / NULL / IpAddress are refused for their length only; the dispatcher itself refuses a supported (class, tag) only for lengths its decoder refuses too (cells over lengths 0..20); OCTET STRING / Opaque / ObjectDescriptor reach Python as the decoded slice, uncut.",
+     " Added in rounds 4-5: the zero-copy decoders (OID, RELATIVE-OID, OCTET STRING, Opaque, ObjectDescriptor, SEQUENCE, [n]) have no error exit; in each numeric decoder some read reaches h.length (cover observation of num); an overflow guard before `T << k` refuses only values that overflow; a RELATIVE-OID name is resolved against the preceding varbind. Added in rounds 6-7: bit fields of composed values do not overlap (bit occupancy on the MIR); the REAL decoder's first-octet table over all 256 octets; BOOLEAN / NULL / IpAddress are refused for their length only; the dispatcher itself refuses a supported (class, tag) only for lengths its decoder refuses too (cells over lengths 0..20); OCTET STRING / Opaque / ObjectDescriptor reach Python as the decoded slice, uncut. Round 8: the length octet of BerHeader::from_ber over all 256 values (short form iff n <= 127).",
      [("C02.dispatch", codec.dispatch), ("C02.displen", codec.dispatch_lengths), ("C02.hdrlen", codec.header_length_forms), ("C02.pyraw", codec.py_values_raw), ("C02.pair", codec.pair), ("C02.extent", codec.extent), ("C02.width", codec.width), ("C02.hdr", codec.hdr_reject), ("C02.oidtext", codec.oid_print), ("C02.decrypt", only(crypto.priv_layout, "decrypt")), ("C02.textreject", codec.oid_to_text_rejections),
       ("C02.fold", codec.fold), ("C02.ip", codec.ipaddr), ("C02.sites", codec.hdr_contract), ("C02.shiftguard", codec.shift_guards), ("C02.tail", codec.tail_cover), ("C02.total", codec.zero_copy_total), ("C02.relbase", c07.relative_base), ("C02.capacity", codec.capacity_exits), ("C02.lenonly", codec.length_only_rejections), ("C02.bits", bits.compose), ("C02.realforms", codec.real_forms)])
 
@@ -219,7 +219,7 @@ prop("C15", "other",
      "shift site in SnmpInt::push_ber/decode, the OID conversions and push_tag_len (engine `num`); the length-form table of "
      "push_tag_len (short / 0x81 / 0x82 with the octets in order and ensure_size covering them); the fixed encodings (ZERO_BER, "
      "NULL_BER, EMPTY_BER, version constants) are minimal TLVs; PDU tag tables of encoder and decoder agree with RFC 3416."
-     " Added in rounds 4-5: decoded flag_* are bits 0/1/2 of the octet for all 256 values (mirror of the encoder's table); ensure_size refuses only what does not fit; push_tagged / push_tag_len write a header of at least two octets on success, also for empty contents; literal one-octet INTEGER range. Added in rounds 6-7: bit-field composition; encoder narrowing casts; capacity exits of value-consuming loops (unrolled iteration by iteration); a pooled buffer is reset before it returns to the pool; the request decoders refuse for structure only, never for a field's value.",
+     " Added in rounds 4-5: decoded flag_* are bits 0/1/2 of the octet for all 256 values (mirror of the encoder's table); ensure_size refuses only what does not fit; push_tagged / push_tag_len write a header of at least two octets on success, also for empty contents; literal one-octet INTEGER range. Added in rounds 6-7: bit-field composition; encoder narrowing casts; capacity exits of value-consuming loops (unrolled iteration by iteration); a pooled buffer is reset before it returns to the pool; the request decoders refuse for structure only, never for a field's value. Round 8: an element pushed in a loop is measured from a mark taken in that loop; the zero-copy decoders are total.",
      [("C15.nowrap", numrules.c15_nowrap), ("C15.len", codec.length_forms), ("C15.hdr", codec.hdr_reject), ("C15.pdu", codec.pdu_tags), ("C15.oid", codec.oid_text), ("C15.nested", crypto.nested_lengths), ("C15.mirror", crypto.layout_mirror), ("C15.dec", only(codec.width, "SnmpInt")), ("C15.handlen", crypto.hand_lengths), ("C15.flags", crypto.msg_flags_decode), ("C15.msgflags", crypto.msg_flags), ("C15.tail", codec.tail_cover), ("C15.shiftguard", codec.shift_guards), ("C15.ensure", only(numrules.c17_sites, "ensure_size", "push_tag_len", "push_tagged")), ("C15.intlit", crypto.literal_int_tlv), ("C15.capacity", codec.capacity_exits), ("C15.op", crypto.op_tables), ("C15.oidtext", codec.oid_print), ("C15.enccast", codec.encoder_casts), ("C15.bits", bits.compose), ("C15.pool", only(crypto.fresh_buffers, "reset-before-return")), ("C15.reqdec", codec.request_decoder_rejections), ("C15.total", codec.zero_copy_total)])
 
 from .rules import crypto  # noqa: E402
@@ -285,7 +285,7 @@ prop("C17", "proof",
      "of buf::* and of the whole send path are obligations. Structural: pos/bookmark/data written only in buf::buffer, skip() "
      "only from the two decrypts (which fill the space before reading), as_slice(n) only from recv_socket with n = recv's result; "
      "no Result of a push is dropped; send only across push_pdu's Ok edge; OutOfBuffer -> SnmpEncodeError; length-form table."
-     " Added in round 5: OutOfBuffer is raised by the buffer alone (no size estimate refuses a request). Added in rounds 6-7: capacity exits; a constructed element's length is measured (buf.len() - mark), never accumulated as contents + constant header size; the sync iterators let SnmpEncodeError through.",
+     " Added in round 5: OutOfBuffer is raised by the buffer alone (no size estimate refuses a request). Added in rounds 6-7: capacity exits; a constructed element's length is measured (buf.len() - mark), never accumulated as contents + constant header size; the sync iterators let SnmpEncodeError through. Round 8: the Result of _send_inner is used at every call site.",
      [("C17.sites", numrules.c17_sites), ("C17.owner", crypto.buffer_owner), ("C17.err", crypto.buffer_err), ("C17.send", crypto.fresh_buffers),
       ("C17.len", codec.length_forms), ("C17.exc", only(c07.exc_table, "OutOfBuffer")), ("C17.itererr", py.iter_errors_propagate), ("C17.sendres", crypto.send_result_used), ("C17.priv-fresh", crypto.priv_fresh), ("C17.nested", crypto.nested_lengths), ("C17.handlen", crypto.hand_lengths), ("C17.padconst", crypto.pad_constants), ("C17.oob", crypto.out_of_buffer_owner), ("C17.privlayout", only(crypto.priv_layout, "decrypt"))])
 
@@ -297,7 +297,7 @@ prop("C09", "other",
      "64, MAC 12, key size = digest size for both aliases); canonical HMAC shape of DigestAuth::sign (tolerant) and MAC placement "
      "data[offset..offset+SS] = d2[0..SS]; the two key installers refresh the same fields and sign reads only refreshed state; "
      "engine id / keys consistency rules of C13."
-     " Added in round 5: the Python key classes store the key bytes as given (only aligned, never rewritten). Added in round 7: the inner hash is fed the message parameter itself - a sub-range that is not provably the whole (`[..]`, `[..len]`) is a violation, an extent re-derived from the message's own header is inconclusive.",
+     " Added in round 5: the Python key classes store the key bytes as given (only aligned, never rewritten). Added in round 7: the inner hash is fed the message parameter itself - a sub-range that is not provably the whole (`[..]`, `[..len]`) is a violation, an extent re-derived from the message's own header is inconclusive. Round 8: the key installers are called with (key, engine id) in this order.",
      [("C09.order", crypto.sign_order), ("C09.const", crypto.hmac_consts), ("C09.shape", crypto.hmac_shape), ("C09.flag", v3.cred),
       ("C09.keys", v3.keys), ("C09.adopt", v3.adopt), ("C09.ktargs", only(crypto.key_type_rejections, "(key, engine id)")), ("C09.accept", c04.accept), ("C09.msgflags", crypto.msg_flags), ("C09.dispatch", only(crypto.key_dispatch, "auth::", "AuthKey")), ("C09.chain", crypto.key_chain), ("C09.py", py.refresh_flow), ("C09.user", only(crypto.key_ffi, "user.")), ("C09.errprop", py.errors_propagate)])
 
@@ -319,7 +319,7 @@ prop("C12", "other",
      "_mask = value << 6, get_*_alg/get_*_key, padding of aligned keys by the privacy key's own type) agree with the Rust side; "
      "as_password = password_to_master then as_master, as_master = localize then store; canonical shapes: localize hashes key, "
      "engine id, key; password_to_master feeds exactly MEGABYTE/len whole copies and then password[..MEGABYTE%len]; the privacy key "
-     "is localised with the auth digest, the session engine id and its own key-type bits (new and set_keys). Added in rounds 6-7: key classes define no __len__ / __bool__ and privacy key classes take the key as given; the engine id keys are localised with is learnt from msgAuthoritativeEngineID; AuthKey::as_key_type refuses on type bits and key size only, never on the algorithm bits.",
+     "is localised with the auth digest, the session engine id and its own key-type bits (new and set_keys). Added in rounds 6-7: key classes define no __len__ / __bool__ and privacy key classes take the key as given; the engine id keys are localised with is learnt from msgAuthoritativeEngineID; AuthKey::as_key_type refuses on type bits and key size only, never on the algorithm bits. Round 8: get_master_key / get_localized_key hand their own parameters to the extension.",
      [("C12.refuse", numrules.c12_refuse), ("C12.dispatch", crypto.key_dispatch), ("C12.ffi", crypto.key_ffi), ("C12.chain", crypto.key_chain),
       ("C12.keys", v3.keys), ("C12.const", crypto.hmac_consts), ("C12.sizes", only(crypto.key_size_guards, "util::")), ("C12.py", py.refresh_flow), ("C12.keycls", py.key_classes), ("C12.engine", only(v3.adopt, "-source")), ("C12.ktreject", crypto.key_type_rejections)])
 
